@@ -25,7 +25,7 @@ RULE = (
     "root has exactly one mosromgrmeta child holding an element canon-equal to the message's "
     "roDelete element, outside roCreate; every later `ro += m` raises MosCompletedMergeError and "
     "leaves str(ro) unchanged; MosFile.from_string(str(ro)) is exactly RunningOrder, completed, with "
-    "the same serialisation, and refuses messages too; `mosromgr detect` prints '(completed)' for the completed document and not for the open one; strict collection merge raises "
+    "the same serialisation, and refuses messages too; `mosromgr detect` (from a file, an S3 key, an S3 prefix) prints '(completed)' for the completed document and not for the open one; MosCollection.completed is False before the merge, True for a saved completed running order, and agrees with the completion record after every merge (also a strict one that stopped early); strict collection merge raises "
     "MosCompletedMergeError at the first message after the roDelete, non-strict finishes with the "
     "state at completion and one MosMergeNonStrictWarning per later message; the same when the completed running order is written out and given to a collection together with the late messages; one roDelete in five names another (or a blank) roID and is merged directly only.  Non-trivial = >= 1 "
     "effective merge before the roDelete and >= 3 distinct message classes after it.")
@@ -42,7 +42,7 @@ def _merge(ro, text):
         return e
 
 
-def _cli_detect(doc):
+def _cli_detect(doc, via='file'):
     """stdout of `mosromgr detect -f <file holding doc>` (None if the command could not be run)."""
     import contextlib
     import io
@@ -55,7 +55,12 @@ def _cli_detect(doc):
     out, err = io.StringIO(), io.StringIO()
     try:
         with contextlib.redirect_stdout(out), contextlib.redirect_stderr(err):
-            main(['detect', '-f', path])
+            if via == 'file':
+                main(['detect', '-f', path])
+            else:
+                from vlib import fakes3
+                with fakes3.FakeS3({'bkt': {'pre/ro.mos.xml': doc.encode('utf-8')}}):
+                    main(['detect', '-b', 'bkt'] + (['-k', 'pre/ro.mos.xml'] if via == 's3-key' else ['-p', 'pre/']))
     except BaseException as e:
         return f'{type(e).__name__} escaped'
     finally:
@@ -119,13 +124,12 @@ def judge_case(case):
             fail('completed-flag-lost-in-roundtrip', f'read back: completed={rt.completed}, same text={str(rt) == done}')
         # what `mosromgr detect` says about the two documents: '(completed)' exactly for the completed one
         for label, doc, want in (('open', open_text, False), ('completed', done, True)):
-            said = _cli_detect(doc)
-            if said is None:
-                continue
-            if ('(completed)' in said) != want or 'RunningOrder' not in said:
-                fail(f'cli-detect|{label}-running-order-reported-wrongly',
-                     f'`mosromgr detect` on the {label} running order prints {said!r}',
-                     'RunningOrder (completed)' if want else 'RunningOrder', said)
+            for via in ('file', 's3-key', 's3-prefix'):
+                said = _cli_detect(doc, via)
+                if ('(completed)' in said) != want or 'RunningOrder' not in said:
+                    fail(f'cli-detect|{label}-running-order-reported-wrongly',
+                         f'`mosromgr detect` ({via}) on the {label} running order prints {said!r}',
+                         'RunningOrder (completed)' if want else 'RunningOrder', said)
         for text in case['after']:
             kind = type(MosFile.from_string(text)).__name__
             for name, target in (('live', ro), ('roundtrip', rt)):
@@ -152,6 +156,9 @@ def judge_case(case):
             except Exception as e2:
                 fail('saved-completed-ro-in-collection|rejected', f'{type(e2).__name__}: {e2}')
                 break
+            if mc.completed is not True:
+                fail('collection-completed-flag|saved-completed-ro', f'mc.completed is {mc.completed!r} for a collection '
+                     'whose running order carries its completion record')
             with warnings.catch_warnings(record=True) as rec:
                 warnings.simplefilter('always')
                 try:
@@ -174,6 +181,9 @@ def judge_case(case):
         docs = [case['ro_xml']] + case['prefix'] + [case['delete']] + case['after_collection']
         for strict in ((True, False) if same_ro else ()):
             mc = MosCollection.from_strings(docs, allow_incomplete=False)
+            if mc.completed is not False:
+                fail('collection-completed-flag|before-merge', f'mc.completed is {mc.completed!r} before anything was '
+                     'merged (the running order has not received its roDelete yet)')
             with warnings.catch_warnings(record=True) as rec:
                 warnings.simplefilter('always')
                 try:
@@ -181,6 +191,11 @@ def judge_case(case):
                     ex = None
                 except Exception as e2:
                     ex = e2
+            recorded = ET.fromstring(str(mc)).find('mosromgrmeta') is not None     # a direct child of the root
+            if mc.completed != recorded:
+                fail('collection-completed-flag|after-merge', f'mc.completed is {mc.completed!r} but the running order '
+                     f'{"carries" if recorded else "does not carry"} a completion record '
+                     f'(strict={strict}, merge raised {type(ex).__name__ if ex else "nothing"})')
             n_ns = sum(1 for w in rec if issubclass(w.category, MosMergeNonStrictWarning))
             if strict:
                 first_fail = _first_failure(case)
